@@ -31,6 +31,35 @@ class ExtractError(ValueError):
     pass
 
 
+def _evaluator(trees):
+    """fcv/pyeval.py over the enum classes of the given files (classes with their own __eq__/__hash__ are left out: for them
+    equality is not identity and the evaluator must not be used)"""
+    from .. import pyeval
+    enums = {}
+    for tree in trees:
+        for n in ast.walk(tree):
+            if isinstance(n, ast.ClassDef) and any(isinstance(b, ast.Name) and b.id == "Enum" for b in n.bases) \
+                    and not pyeval.defines_own_eq(n):
+                enums[n.name] = _members(n)
+    return pyeval, enums
+
+
+def _falsy(trees, cls, enum: str, members: list) -> list[str]:
+    """falsy members of a status enum: the literal list of `return self not in [...]` if `__bool__` is written that way,
+    otherwise obtained by EVALUATING `__bool__` on every member (set literal, `is not`, `!=`, chains, … - fcv/pyeval.py)"""
+    fn = _func(cls, "__bool__")
+    try:
+        return _not_in_list(fn, "self", enum)
+    except ExtractError as first:
+        pyeval, enums = _evaluator(trees)
+        if enum not in enums or len(fn.args.args) != 1:
+            raise first
+        try:
+            return pyeval.falsy_members(pyeval.Evaluator(enums), fn, enum, members)
+        except pyeval.Unsupported as e:
+            raise ExtractError(f"{enum}.__bool__: {first}; not evaluable either: {e}") from None
+
+
 def _class(tree, name):
     for n in ast.walk(tree):
         if isinstance(n, ast.ClassDef) and n.name == name:
@@ -128,6 +157,135 @@ def _early_return_form(body: list) -> list:
     return out + [ast.Return(value=default)]
 
 
+def _is_failure_is_not_bool(fc_cls) -> bool:
+    """FieldComparison: `__bool__` is `return not self.is_failure` and the property `is_failure` is `return not self.status`
+    (then `c.is_failure` and `not c` are the same test)"""
+    def single_return(fn):
+        body = [s for s in fn.body if not (isinstance(s, ast.Expr) and isinstance(s.value, ast.Constant))]
+        return body[0].value if len(body) == 1 and isinstance(body[0], ast.Return) else None
+
+    def not_self_attr(e, attr):
+        return isinstance(e, ast.UnaryOp) and isinstance(e.op, ast.Not) and isinstance(e.operand, ast.Attribute) \
+            and e.operand.attr == attr and isinstance(e.operand.value, ast.Name) and e.operand.value.id == "self"
+    try:
+        return not_self_attr(single_return(_func(fc_cls, "__bool__")), "is_failure") \
+            and not_self_attr(single_return(_func(fc_cls, "is_failure")), "status")
+    except ExtractError:
+        return False
+
+
+def _merged_rules_by_pattern(mr):
+    pair = [a.arg for a in mr.args.args]
+    if len(pair) != 2:      # noqa: PLR2004
+        raise ExtractError("_merged_result: expected two parameters")
+    rules = []
+    default_none = False
+    pair_names = set()      # `results = (r1, r2)` / `[r1, r2]` bound to a local name before the rules
+    for stmt in _early_return_form(mr.body):
+        if isinstance(stmt, ast.Expr) and isinstance(stmt.value, ast.Constant):
+            continue                                            # docstring
+        if isinstance(stmt, ast.Assign) and len(stmt.targets) == 1 and isinstance(stmt.targets[0], ast.Name) \
+                and isinstance(stmt.value, (ast.List, ast.Tuple)) \
+                and [getattr(e, "id", None) for e in stmt.value.elts] == pair:
+            pair_names.add(stmt.targets[0].id)
+            continue
+        if isinstance(stmt, ast.If):
+            call = stmt.test
+            if not (isinstance(call, ast.Call) and isinstance(call.func, ast.Name) and call.func.id == "any"
+                    and len(call.args) == 1 and isinstance(call.args[0], ast.GeneratorExp)):
+                raise ExtractError("_merged_result: unexpected test")
+            g = call.args[0]
+            cmp_ = g.elt
+            if not (isinstance(cmp_, ast.Compare) and isinstance(cmp_.ops[0], ast.Eq)
+                    and isinstance(cmp_.left, ast.Name)):
+                raise ExtractError("_merged_result: unexpected comparison")
+            it = g.generators[0].iter
+            over_pair = (isinstance(it, (ast.List, ast.Tuple)) and [getattr(e, "id", None) for e in it.elts] == pair) \
+                or (isinstance(it, ast.Name) and it.id in pair_names)
+            if not (over_pair and not g.generators[0].ifs):
+                raise ExtractError("_merged_result: not over [r1, r2]")
+            x = _attr_member(cmp_.comparators[0], "TestStatus")
+            if not (len(stmt.body) == 1 and isinstance(stmt.body[0], ast.Return) and not stmt.orelse):
+                raise ExtractError("_merged_result: unexpected branch body")
+            rules.append([x, _attr_member(stmt.body[0].value, "TestStatus")])
+        elif isinstance(stmt, ast.Return):
+            default_none = isinstance(stmt.value, ast.Constant) and stmt.value.value is None
+            if not default_none:
+                raise ExtractError("_merged_result: final return is not None")
+        else:
+            raise ExtractError("_merged_result: unexpected statement")
+    return rules, default_none
+
+
+def suite_helper_falsy(trees, ts_tree, suite, members: list, err) -> list[str]:
+    """falsy list of the status helper of `TestSuite.__bool__` (shared with tables/cli.py)"""
+    bool_fn = _func(suite, "__bool__")
+    nested = [n for n in bool_fn.body if isinstance(n, ast.FunctionDef)]
+    outer_funcs = {n.name: n for n in ts_tree.body if isinstance(n, ast.FunctionDef)}
+    if len(nested) == 1 and len(nested[0].args.args) == 1:
+        helper = nested[0]
+    elif not nested:
+        called = {c.func.id for c in ast.walk(bool_fn) if isinstance(c, ast.Call) and isinstance(c.func, ast.Name)
+                  and len(c.args) == 1 and not c.keywords and c.func.id in outer_funcs
+                  and len(outer_funcs[c.func.id].args.args) == 1}
+        if len(called) != 1:
+            raise err("TestSuite.__bool__: expected exactly one (nested or module-level) one-parameter helper")
+        helper = outer_funcs[called.pop()]
+    else:
+        raise err("TestSuite.__bool__: expected exactly one nested one-parameter helper")
+    try:
+        return _not_in_list(helper, helper.args.args[0].arg, "TestStatus")
+    except ExtractError as first:
+        pyeval, enums = _evaluator(trees)
+        if "TestStatus" not in enums:
+            raise err(str(first)) from None
+        try:
+            return pyeval.falsy_members(pyeval.Evaluator(enums, outer_funcs), helper, "TestStatus", members)
+        except pyeval.Unsupported as e:
+            raise err(f"TestSuite.__bool__ helper: {first}; not evaluable either: {e}") from None
+
+
+def merged_rules_by_evaluation(trees, mr, members: list):
+    """`_merged_result(a, b)` EVALUATED on every pair of (TestStatus member | None) and summarised as the ordered rule list
+    `[(X, Y)]` + default None that `mergedRules` stands for (result = Y of the first rule whose X equals a or b, else None).
+    The rules are synthesised from the table (Y from (X, None); order from the mixed pairs) and then VERIFIED against all
+    (n+1)^2 entries: if the function is not of that kind the extraction fails."""
+    pyeval, enums = _evaluator(trees)
+    if "TestStatus" not in enums or len(mr.args.args) != 2:      # noqa: PLR2004
+        raise ExtractError("_merged_result: not evaluable (shape)")
+    vals = [pyeval.Sym("TestStatus", m) for m in members] + [None]
+    table = {}
+    try:
+        for a in vals:
+            for b in vals:
+                r = pyeval.Evaluator(enums).call(mr, [a, b])
+                if not (r is None or (isinstance(r, pyeval.Sym) and r.cls == "TestStatus")):
+                    raise ExtractError("_merged_result: returns something that is not a TestStatus / None")
+                table[(a, b)] = r
+    except pyeval.Unsupported as e:
+        raise ExtractError(f"_merged_result: not evaluable: {e}") from None
+    if table[(None, None)] is not None:
+        raise ExtractError("_merged_result: final result for (None, None) is not None")
+    active = [x for x in vals[:-1] if table[(x, None)] is not None]
+
+    def before(x, y):       # rule of x fires before the rule of y
+        return table[(x, y)] == table[(x, None)] and table[(y, x)] == table[(x, None)]
+    import functools
+    order = sorted(active, key=functools.cmp_to_key(lambda x, y: -1 if before(x, y) and not before(y, x) else
+                                                    (1 if before(y, x) and not before(x, y) else 0)))
+    rules = [(x, table[(x, None)]) for x in order]
+
+    def by_rules(a, b):
+        for x, y in rules:
+            if a == x or b == x:
+                return y
+        return None
+    for (a, b), r in table.items():
+        if by_rules(a, b) != r:
+            raise ExtractError(f"_merged_result: not a priority-rule function (differs at {a}, {b})")
+    return [[x.name, y.name] for x, y in rules]
+
+
 def extract(src) -> dict:
     fdc = ast.parse(src(FDC))
     ts = ast.parse(src(TS))
@@ -137,10 +295,10 @@ def extract(src) -> dict:
     # --- FieldComparisonStatus / Status
     fcs = _class(fdc, "FieldComparisonStatus")
     facts["fcs_members"] = _members(fcs)
-    facts["fcs_falsy"] = _not_in_list(_func(fcs, "__bool__"), "self", "FieldComparisonStatus")
+    facts["fcs_falsy"] = _falsy([fdc, ts], fcs, "FieldComparisonStatus", facts["fcs_members"])
     st = _class(fdc, "Status")
     facts["status_members"] = _members(st)
-    facts["status_falsy"] = _not_in_list(_func(st, "__bool__"), "self", "Status")
+    facts["status_falsy"] = _falsy([fdc, ts], st, "Status", facts["status_members"])
     # suite constructor: first test is `c.status == FieldComparisonStatus.<x>`
     init = _func(_class(fdc, "FieldComparisonSuite"), "__init__")
     bucket = None
@@ -149,9 +307,12 @@ def extract(src) -> dict:
                 and isinstance(n.test.left, ast.Attribute) and n.test.left.attr == "status":
             bucket = _attr_member(n.test.comparators[0], "FieldComparisonStatus")
             # shape of the three-way split: if ==passed / elif not c / else
-            if not (len(n.orelse) == 1 and isinstance(n.orelse[0], ast.If)
-                    and isinstance(n.orelse[0].test, ast.UnaryOp) and isinstance(n.orelse[0].test.op, ast.Not)
-                    and n.orelse[0].orelse):
+            second = n.orelse[0].test if len(n.orelse) == 1 and isinstance(n.orelse[0], ast.If) else None
+            negated = isinstance(second, ast.UnaryOp) and isinstance(second.op, ast.Not)
+            if not negated and isinstance(second, ast.Attribute) and second.attr == "is_failure" \
+                    and _is_failure_is_not_bool(_class(fdc, "FieldComparison")):
+                negated = True      # `elif c.is_failure`: by the two definitions just checked the same test as `elif not c`
+            if not (second is not None and negated and n.orelse[0].orelse):
                 raise ExtractError("FieldComparisonSuite.__init__: unexpected bucket structure")
             break
     if bucket is None:
@@ -160,13 +321,11 @@ def extract(src) -> dict:
     # --- TestStatus / TestSuite
     tst = _class(ts, "TestStatus")
     facts["ts_members"] = _members(tst)
-    facts["ts_falsy"] = _not_in_list(_func(tst, "__bool__"), "self", "TestStatus")
+    facts["ts_falsy"] = _falsy([fdc, ts], tst, "TestStatus", facts["ts_members"])
     suite = _class(ts, "TestSuite")
-    # the nested helper of TestSuite.__bool__ is located by structure (its name / parameter name are local choices)
-    nested = [n for n in _func(suite, "__bool__").body if isinstance(n, ast.FunctionDef)]
-    if len(nested) != 1 or len(nested[0].args.args) != 1:
-        raise ExtractError("TestSuite.__bool__: expected exactly one nested one-parameter helper")
-    facts["testsuite_falsy"] = _not_in_list(nested[0], nested[0].args.args[0].arg, "TestStatus")
+    # the helper of TestSuite.__bool__ is located by structure (its name / parameter name / nesting level are local
+    # choices): the only nested one-parameter def, else the only module-level one-parameter def that `__bool__` calls
+    facts["testsuite_falsy"] = suite_helper_falsy([fdc, ts], ts, suite, facts["ts_members"], ExtractError)
     stf = _func(suite, "status")
     derived = None
     for n in ast.walk(stf):
@@ -187,46 +346,15 @@ def extract(src) -> dict:
     facts["testsuite_derived"] = derived
     # --- _merged_result
     mr = _func(fc, "_merged_result")
-    rules = []
-    default_none = False
-    pair_names = set()      # `results = (r1, r2)` / `[r1, r2]` bound to a local name before the rules
-    for stmt in _early_return_form(mr.body):
-        if isinstance(stmt, ast.Expr) and isinstance(stmt.value, ast.Constant):
-            continue                                            # docstring
-        if isinstance(stmt, ast.Assign) and len(stmt.targets) == 1 and isinstance(stmt.targets[0], ast.Name) \
-                and isinstance(stmt.value, (ast.List, ast.Tuple)) \
-                and [getattr(e, "id", None) for e in stmt.value.elts] == ["r1", "r2"]:
-            pair_names.add(stmt.targets[0].id)
-            continue
-        if isinstance(stmt, ast.If):
-            call = stmt.test
-            if not (isinstance(call, ast.Call) and isinstance(call.func, ast.Name) and call.func.id == "any"
-                    and len(call.args) == 1 and isinstance(call.args[0], ast.GeneratorExp)):
-                raise ExtractError("_merged_result: unexpected test")
-            g = call.args[0]
-            cmp_ = g.elt
-            if not (isinstance(cmp_, ast.Compare) and isinstance(cmp_.ops[0], ast.Eq)
-                    and isinstance(cmp_.left, ast.Name)):
-                raise ExtractError("_merged_result: unexpected comparison")
-            it = g.generators[0].iter
-            over_pair = (isinstance(it, (ast.List, ast.Tuple)) and [getattr(e, "id", None) for e in it.elts] == ["r1", "r2"]) \
-                or (isinstance(it, ast.Name) and it.id in pair_names)
-            if not (over_pair and not g.generators[0].ifs):
-                raise ExtractError("_merged_result: not over [r1, r2]")
-            x = _attr_member(cmp_.comparators[0], "TestStatus")
-            if not (len(stmt.body) == 1 and isinstance(stmt.body[0], ast.Return) and not stmt.orelse):
-                raise ExtractError("_merged_result: unexpected branch body")
-            rules.append([x, _attr_member(stmt.body[0].value, "TestStatus")])
-        elif isinstance(stmt, ast.Return):
-            default_none = isinstance(stmt.value, ast.Constant) and stmt.value.value is None
-            if not default_none:
-                raise ExtractError("_merged_result: final return is not None")
-        else:
-            raise ExtractError("_merged_result: unexpected statement")
+    try:
+        rules, default_none = _merged_rules_by_pattern(mr)
+    except ExtractError:
+        rules, default_none = merged_rules_by_evaluation([fdc, ts], mr, facts["ts_members"]), True
     facts["merged_rules"] = rules
     facts["merged_default_none"] = default_none
     # --- _bool_to_exit_code: `return int(not value)`
-    be = _func(cm, "_bool_to_exit_code")
+    from ..pylite_tr import resolve_reexport
+    be = _func(resolve_reexport(src, CM, "_bool_to_exit_code")[1], "_bool_to_exit_code")
     # evaluated, not pattern-matched (same evaluator as tables/cli.py): `int(not value)`, `0 if value else 1`, `1 - int(value)` …
     from .cli import eval_bool_to_exit_code
     try:
